@@ -198,6 +198,8 @@ def r04_3(ctx):
                     elif e[0] == "call" and e[1] == "std::string::String::into_bytes" and e[2][0] == cur:
                         pending = False
                     elif e[0] in ("set", "init") and e[1] == td:
+                        if e[3] == cur:
+                            continue  # `token_data = match .. { _ => token_data }`: the same text moved back
                         if pending:
                             bad.append("token text is overwritten by %s without having been emitted" % show(e[3], f)[:80])
                         pending = True
